@@ -27,6 +27,7 @@ import (
 type replayTmpl struct {
 	File   string
 	Func   string
+	Funcs  []string
 	PkgDir string
 	Kinds  []string
 	Label  string
@@ -51,6 +52,7 @@ func loadReplayTemplates() []*replayTmpl {
 				switch w {
 				case "func":
 					t.Func = rest
+					t.Funcs = append(t.Funcs, rest)
 				case "pkgdir":
 					t.PkgDir = rest
 				case "kinds":
@@ -85,7 +87,7 @@ func tryReplay(w *World, f failure, prop string) (bool, string) {
 	}
 	var tmpl *replayTmpl
 	for _, t := range loadReplayTemplates() {
-		if t.Func != f.run.Func {
+		if !contains(t.Funcs, f.run.Func) {
 			continue
 		}
 		if len(t.Kinds) > 0 && !contains(t.Kinds, f.res.Obl.Kind) {
